@@ -281,7 +281,7 @@ impl BitRead for Bits<'_> {
 
     #[inline]
     fn read_bits(&mut self, dst: &mut [u8]) -> Result<(), Error> {
-        BitRead::read_bits(&mut (self.slice, &mut self.pos), dst)
+        self.read_bits_with_offset_len(dst, 0, dst.len() * BYTE_LEN)
     }
 
     #[inline]
@@ -290,12 +290,12 @@ impl BitRead for Bits<'_> {
         dst: &mut [u8],
         dst_bit_offset: usize,
     ) -> Result<(), Error> {
-        BitRead::read_bits_with_offset(&mut (self.slice, &mut self.pos), dst, dst_bit_offset)
+        self.read_bits_with_offset_len(dst, dst_bit_offset, dst.len() * BYTE_LEN - dst_bit_offset)
     }
 
     #[inline]
     fn read_bits_with_len(&mut self, dst: &mut [u8], dst_bit_len: usize) -> Result<(), Error> {
-        BitRead::read_bits_with_len(&mut (self.slice, &mut self.pos), dst, dst_bit_len)
+        self.read_bits_with_offset_len(dst, 0, dst_bit_len)
     }
 
     #[inline]
@@ -305,6 +305,10 @@ impl BitRead for Bits<'_> {
         dst_bit_offset: usize,
         dst_bit_len: usize,
     ) -> Result<(), Error> {
+        // never read beyond the declared length, even if the underlying slice is longer
+        if self.len.saturating_sub(self.pos) < dst_bit_len {
+            return Err(ErrorKind::EndOfStream.into());
+        }
         BitRead::read_bits_with_offset_len(
             &mut (self.slice, &mut self.pos),
             dst,
